@@ -127,7 +127,8 @@ const SOUP: &[&str] = &[
     "a", "b", "x1", "m", "\\esc ", "$display", "$x", "0", "1", "8'hFF", "'0", "1.5", "\"s\"", "\"", "(", ")", "[", "]", "{", "}", "'{", ";", ",", ".", ":", "::", "=", "<=", "==",
     "+", "-", "*", "/", "#", "@", "@*", "?", "&", "|", "^", "~", "!", "<<", ">>", "->", "`define X 1\n", "`X", "`ifdef X", "`else", "`endif", "`include \"f\"", "`resetall",
     "`timescale 1ns/1ps", "`begin_keywords \"1364-2001\"", "`end_keywords", "`celldefine", "`undef X", "`__LINE__", "`__FILE__", "//c\n", "/* c */", "/*", "*/", "\n", " ", "\t", "\r\n",
-    "\\", "\u{1}", "é", "(*", "*)", "-incdir", "`", "``", "`\"",
+    "\\", "\u{1}", "é", "(*", "*)", "-incdir", "`", "``", "`\"", "`include", "`A", "`W", "`M(1)", "<f>", "`define A", "`define W é", "`define M(x) x", "`undefineall", "`elsif X",
+    "`ifndef X", "\n`include `A\n", "\n`include `W\n", "\n`include `X\n", "\n`include \"f\"\n", "\n`include <f>\n", "`line 1 \"f\" 0", "`pragma p", "`default_nettype none", "`unconnected_drive pull0",
 ];
 
 /// A token soup over a vocabulary of keywords, directives, delimiters and fragments.
